@@ -219,6 +219,10 @@ type Transcript struct {
 	Msgs    []pgwire.Msg
 	Grammar error // nil when the whole stream is well-formed
 	Base    int   // offset of the first protocol byte in Out (1 when SSL byte present)
+	// AfterTorn: bytes the server wrote successfully after a write of which only
+	// a part had reached the peer (they follow a torn message on the wire)
+	AfterTorn int
+	TornLen   int
 }
 
 // FirstIsSSLRequest reports whether the connection's first client packet is
@@ -241,7 +245,16 @@ func ParseOut(cs *connState) *Transcript {
 		t.Base = 1
 		out = out[1:]
 	}
+	if t.SSL == 'S' {
+		// the server agreed to TLS: what follows the answer byte are TLS records
+		// (handshake messages, alerts, application data), judged by C11 below TLS
+		return t
+	}
 	t.Msgs, t.Grammar = pgwire.ParseStream(out)
+	if cs.TornLen > 0 {
+		t.TornLen = cs.TornLen
+		t.AfterTorn = len(cs.Out) - cs.TornAt
+	}
 	return t
 }
 
@@ -249,6 +262,10 @@ func ParseOut(cs *connState) *Transcript {
 // property: the accepted output must be a concatenation of well-formed
 // backend messages.
 func GrammarViolation(prop string, conn int, t *Transcript) []Violation {
+	if t.AfterTorn > 0 {
+		return []Violation{{Prop: prop, Rule: "output-after-torn-write", Sig: "output-after-torn-write",
+			Detail: fmt.Sprintf("conn %d: a write failed after %d of its bytes had reached the peer; the server then wrote %d more byte(s) on that connection, which arrive behind the torn message (complete messages before the failure: %q)", conn, t.TornLen, t.AfterTorn, pgwire.Kinds(t.Msgs))}}
+	}
 	if t.Grammar == nil {
 		return nil
 	}
